@@ -105,6 +105,7 @@ func Run(d *DAG, r *rand.Rand, o RunOpts) *Trace {
 		order := Order(r, ed.Events, kinds(ei))
 		fpParts = append(fpParts, RootArrivalFP(order))
 		delivered := map[hash.Event]idx.Frame{}
+		lastBlockFrame := idx.Frame(0)
 		forksSoFar := false
 		seenSeq := map[[2]uint64]hash.Event{}
 		for _, e := range order {
@@ -151,6 +152,12 @@ func Run(d *DAG, r *rand.Rand, o RunOpts) *Trace {
 			}
 			// C02 invariants that need no reference
 			for _, b := range got {
+				if b.Epoch == plan.Epoch {
+					if b.Frame != lastBlockFrame+1 {
+						t.add(DFrameNumber, "impl_frame", b.Frame, "previous_block_frame", lastBlockFrame, "epoch", b.Epoch, "why", "blocks of an epoch must carry consecutive frames starting at 1")
+					}
+					lastBlockFrame = b.Frame
+				}
 				if b.Dup {
 					t.add(DDeliveredTwice, "frame", b.Frame, "epoch", b.Epoch, "within", "one block")
 				}
